@@ -1,30 +1,109 @@
-"""C30 -- emu-sv gradients are finite and equal finite differences (one clause decided here)."""
-from contracts import pchip
+"""C30 -- emu-sv gradients are finite and equal finite differences.
+
+Two parts, labelled apart in the evidence:
+
+* PROOFS (Engine A, pyvc + z3): the "finite" clause for the drive interpolant (PCHIP) -- every denominator
+  evaluated while it is built is non-zero.
+* BOUNDED symbolic obligations (Engine B, symtorch; kind "bounded-symbolic"): the hand-written derivative
+  operators used by EvolveStateVector.backward are the partial derivatives of the Hamiltonian, and backward
+  combines them by the documented trace formula.  contracts/sv_gradops.py, symharness/c30.py.
+
+Not decided: agreement of the full backward pass with finite differences (Krylov numerics, autograd).
+
+The lock (obligations.lock.json) is written from the QUICK tier (`./check C30 --relock`); obligations that exist
+in the thorough tier only carry `nolock` and are never written to it.
+"""
+from contracts import pchip, sv_gradops
 
 ID = "C30"
 LEVEL = "proof"
 REPLAY = "replay/c30.py"
 
+_PLAN = {}
+
+
+def extra_checks(tier, seed, repo_root):
+    """bounded symbolic obligations for the derivative operators of the backward pass (Engine B)"""
+    reports = sv_gradops.run("C30", tier, seed, repo_root)
+    obs = [o for r in reports for o in r["obligations"]]
+    by = {}
+    for o in obs:
+        by[o["status"]] = by.get(o["status"], 0) + 1
+    first = reports[0] if reports else {}
+    if _PLAN:                                   # measured numbers of this run, next to the static description
+        _PLAN["bounded"] = list(sv_gradops.BOUNDED) + [
+            f"this run ({tier}): {len(obs)} bounded-symbolic obligations, by status {by}; every other obligation "
+            f"of this evidence (kinds other than bounded-symbolic) is a proof obligation discharged by z3/cvc5"]
+        _PLAN["coverage_extra"] = dict(engine_b_bounded_part=dict(
+            obligations=len(obs), by_status=by, bounds=sv_gradops.BOUNDS,
+            by_class={r["label"]: len(r["obligations"]) for r in reports},
+            shim_ops_exercised=first.get("shim_ops_exercised"),
+            shim_selftest=first.get("shim_selftest"),
+            shim_ops_not_covered_by_selftest=first.get("shim_ops_not_covered_by_selftest"),
+            driver_wall_s=first.get("driver_wall_s"), total_wall_s=first.get("total_wall_s")))
+    return reports
+
 
 def build(reg):
     pchip.register_c30(reg, "C30")
     M = pchip.MOD
-    return dict(
+    plan = dict(
         targets=[f"{M}:_pchip_derivatives[finite]", f"{M}:_polynomial_coeffs[finite]",
                  f"{M}:PCHIP1D.__init__[finite]"],
-        not_decided=["agreement of autograd gradients with finite differences (floating-point numerical analysis "
-                     "of the Krylov forward/backward passes: out of reach of per-function contracts)",
-                     "finiteness of gradients through the Krylov exponential and the double-Krylov backward pass"],
-        explanation="Decided clause: every denominator evaluated while the drive interpolant (PCHIP) is built is "
-                    "non-zero for strictly increasing knots and arbitrary finite samples, so no NaN/inf enters the "
-                    "waveform-parameter gradients through a masked torch.where branch.",
+        not_decided=["agreement of the autograd gradients of a full run with finite differences: the backward pass "
+                     "contracts the derivative operators with the output of emu_base.math.double_krylov (Frechet "
+                     "derivative of the matrix exponential in two Krylov bases); that the Krylov data represent "
+                     "dU(H, |psi><g|) to the requested tolerance is floating-point numerical analysis, out of reach "
+                     "of per-function contracts and of the polynomial shim",
+                     "finiteness of gradients through the Krylov exponential and the double-Krylov backward pass",
+                     "gradients with respect to the initial state (krylov_exp of the adjoint) and the chaining of the "
+                     "per-step gradients through autograd and pulser_adapter (only the PCHIP 'finite' clause is "
+                     "decided there)",
+                     "the derivative operators beyond the explored number of atoms (the bounded part stops at N = 4, "
+                     "thorough N = 6) and floating-point rounding inside them"],
+        explanation="PROOFS (kinds other than bounded-symbolic; z3/cvc5): every denominator evaluated while the drive "
+                    "interpolant (PCHIP) is built is non-zero for strictly increasing knots and arbitrary finite "
+                    "samples, so no NaN/inf enters the waveform-parameter gradients through a masked torch.where "
+                    "branch. BOUNDED (kind bounded-symbolic, backend symtorch; NOT proofs, listed under 'bounded'): "
+                    "the real DHDOmegaSparse / DHDDeltaSparse / DHDPhiSparse / DHDUSparse of emu_sv/time_evolution.py "
+                    "applied to arbitrary symbolic complex vectors equal the exact polynomial partial derivative of "
+                    "the dense Kronecker-product Hamiltonian with respect to Omega_k / delta_k / phi_k / U_ij times "
+                    "those vectors, for every site / pair and every pattern of literally-zero phases up to the bound "
+                    "on the number of atoms; EvolveStateVector.backward combines them by Re Tr(-i dt dH/dp Vs^T dS "
+                    "conj(Vg)) at the right site with the Krylov data left arbitrary. coverage.obligations / "
+                    "discharged count both kinds; coverage.by_kind gives the split.",
         trusted=["torch.where back-propagates through both branches (a zero denominator in the discarded branch "
-                 "yields NaN gradients): this is why *every* denominator is required non-zero"],
+                 "yields NaN gradients): this is why *every* denominator is required non-zero"] + sv_gradops.TRUSTED,
+        bounded=list(sv_gradops.BOUNDED),
+        assumptions=list(sv_gradops.ASSUMPTIONS),
     )
+    _PLAN.clear()
+    _PLAN.update(plan)
+    return _PLAN
 
 
 # negative controls (thorough tier): (name, file, old text, new text)
 CONTROLS = [('divide by the raw secants (the repaired defect)',
   'emu_base/math/pchip_torch.py',
   '        torch.where(mask_same_sign, delta_l, ones),\n        torch.where(mask_same_sign, delta_r, ones),',
-  '        delta_l,\n        delta_r,')]
+  '        delta_l,\n        delta_r,'),
+ ('DHDDeltaSparse: wrong sign (dH/ddelta = +n)',
+  'emu_sv/time_evolution.py',
+  '        return -result.view(vec.shape[0], 2**self.nqubits)',
+  '        return result.view(vec.shape[0], 2**self.nqubits)'),
+ ('DHDOmegaSparse: missing factor 0.5',
+  'emu_sv/time_evolution.py',
+  '        self.alpha = 0.5 * torch.exp(1j * phi).item()',
+  '        self.alpha = 1.0 * torch.exp(1j * phi).item()'),
+ ('DHDPhiSparse: phase derivative without the quarter turn (applies dH/dOmega * Omega)',
+  'emu_sv/time_evolution.py',
+  '        self.alpha = 0.5 * (omega * torch.exp(1j * (phi + torch.pi / 2))).item()',
+  '        self.alpha = 0.5 * (omega * torch.exp(1j * phi)).item()'),
+ ('DHDUSparse: projects atom j onto |g> instead of |r>',
+  'emu_sv/time_evolution.py',
+  '        result[:, :, 1, :, 0] = 0.0',
+  '        result[:, :, 1, :, 1] = 0.0'),
+ ('backward: phase gradient of atom i built from the amplitude of atom 0 (wrong site index)',
+  'emu_sv/time_evolution.py',
+  '                dhp = DHDPhiSparse(i, e_l.device, nqubits, omegas[i], phis[i])',
+  '                dhp = DHDPhiSparse(i, e_l.device, nqubits, omegas[0], phis[i])')]
